@@ -210,9 +210,9 @@ func cmdCheck(args []string) int {
 		}
 	}
 	sort.Strings(keys)
-	timeout := 10 * time.Second
+	timeout := 20 * time.Second
 	if *tier == "thorough" {
-		timeout = 60 * time.Second
+		timeout = 90 * time.Second
 	}
 	dir, _ := os.MkdirTemp("", "govc")
 	defer os.RemoveAll(dir)
@@ -235,7 +235,10 @@ func cmdCheck(args []string) int {
 			}
 		}
 	}
-	solveAll(jobs, solveOpts{dir: dir, timeout: timeout, canaryTO: 3 * time.Second}, 16)
+	tEnc := time.Since(t0).Seconds()
+	solveAll(jobs, solveOpts{dir: dir, timeout: timeout, canaryTO: 3 * time.Second, all: *tier == "thorough"}, 16)
+	tSolve := time.Since(t0).Seconds() - tEnc
+	fmt.Printf("timing: load+encode %.1fs, solve %.1fs\n", tEnc, tSolve)
 
 	// classify
 	nObl, nDis, nCan, nCanOK := 0, 0, 0, 0
@@ -269,6 +272,20 @@ func cmdCheck(args []string) int {
 			}
 		} else {
 			failed = append(failed, o)
+		}
+	}
+	// slowest obligations (stability margin against the per-obligation timeout)
+	var slow []map[string]interface{}
+	{
+		var all []*Obligation
+		for _, j := range jobs {
+			if !j.o.Canary {
+				all = append(all, j.o)
+			}
+		}
+		sort.Slice(all, func(a, b int) bool { return all[a].Time > all[b].Time })
+		for k := 0; k < len(all) && k < 5; k++ {
+			slow = append(slow, map[string]interface{}{"obligation": all[k].Name, "seconds": round3(all[k].Time), "solver": all[k].Solver, "status": all[k].Status})
 		}
 	}
 	rc := 0
@@ -374,6 +391,8 @@ func cmdCheck(args []string) int {
 		"failed_obligations":       openFailed,
 		"engine_errors":            engineErrs,
 		"samples":                  samples,
+		"slowest_obligations":      slow,
+		"per_obligation_timeout_s": int(timeout.Seconds()),
 	}
 	if *extraJSON != "" {
 		if data, err := os.ReadFile(*extraJSON); err == nil {
